@@ -127,6 +127,12 @@ func (w *Reconciler) SyncOne(ctx context.Context, namespace, name string, _ int)
 func (w *Reconciler) sync(
 	ctx context.Context, rj *execution.Job, cfg *configv1alpha1.JobExecutionConfig, trace *utiltrace.Trace,
 ) (*execution.Job, error) {
+	// Kill timestamp is in the future, make sure that we sync again once it is due
+	// since nothing else may trigger a sync by then.
+	if ktime.IsTimeSetAndLater(rj.Spec.KillTimestamp) && !isDeleted(rj) {
+		w.enqueueAfter(rj, "kill_timestamp", time.Until(rj.Spec.KillTimestamp.Time))
+	}
+
 	// Main logic: Perform task creation/adoption and reconciliation. If Job is not
 	// started or is being deleted, this is a no-op.
 	if jobutil.IsStarted(rj) && !isDeleted(rj) {
